@@ -181,8 +181,9 @@ func (vt *Model) ris() {
 		},
 	}
 	vt.mode = mode{
-		decawm:  true,
-		dectcem: true,
+		decawm:    true,
+		dectcem:   true,
+		altScroll: true,
 	}
 	vt.setDefaultTabStops()
 }
